@@ -342,6 +342,19 @@ func (p *Program) LibFuncs(pkg string) []*FuncInfo {
 	return out
 }
 
+// LibFuncsAll is LibFuncs plus the NEW helpers: for rules that inspect each function's syntax on its own
+// (type assertions, slice expressions) rather than its paths.
+func (p *Program) LibFuncsAll(pkg string) []*FuncInfo {
+	var out []*FuncInfo
+	for _, f := range p.Funcs {
+		if shortPkg(f.Pkg.PkgPath) == pkg {
+			out = append(out, f)
+		}
+	}
+	sort.Slice(out, func(i, j int) bool { return out[i].Decl.Pos() < out[j].Decl.Pos() })
+	return out
+}
+
 // SSA builds (once) the SSA program for everything loaded.
 func (p *Program) SSA() (*ssa.Program, map[string]*ssa.Package) {
 	if p.ssaProg != nil {
